@@ -81,6 +81,11 @@ def cases(tier, seed, info):
     for j in range(0, m, 10):
         out.append(dict(kind='pels', seed=seed * 1000 + j, n=10))
     info['pels'] = m
+    # (d) documents whose printed LENGTH sits on and next to round numbers (the sizes buffers and blocks have)
+    marks = [2048, 4096, 8192, 16384, 32768] if tier == 'quick' else [512 * k for k in range(4, 120)]
+    for j, mk in enumerate(marks):
+        out.append(dict(kind='lengths', seed=seed * 77 + j, targets=[mk - 1, mk, mk + 1] + ([2 * mk] if tier == 'quick' else [])))
+    info['length_marks'] = len(marks)
     return out
 
 
@@ -257,7 +262,71 @@ def _pels(case):
     return recs
 
 
+def _lengths(case):
+    """one PEL per target: its text user data is stretched until the printed document has exactly the wanted number
+    of characters; then -f, -a and -j must each give that document back"""
+    import shutil
+    import pel.peltool.peltool as pt
+    from pel.datastream import DataStream
+    from pel.peltool.config import Config
+    rng = random.Random(case['seed'])
+    cfg = Config()
+    cfg.every_pel = True
+    cfg.allow_plugins = False
+    recs = []
+    for t in case['targets']:
+        pel = genpel.gen_pel(rng, kinds=['UD'], creator='O', sev=0x40, flags=0x2000, eid=encode.u32(0x50002000))
+
+        def build(n):
+            raw = ('T' + 'x' * n).encode()
+            raw += b'\x00' * ((-len(raw)) % 4)
+            pel['secs'][0] = dict(genpel.hdr(rng, 'UD'), kind='UD', comp=[0x20, 0x00], sub=3, ver=1, payload=list(raw))
+            data = bytes(encode.encode(pel))
+            _, text = pt.parsePEL(DataStream(data, byte_order='big', is_signed=False), cfg, False)
+            return data, text
+        n, data, text = 1, None, ''
+        for _ in range(6):
+            data, text = build(n)
+            if len(text) == t or n + t - len(text) < 1:
+                break
+            n += t - len(text)
+        hit = len(text) == t
+        want = json.loads(text)
+        d = os.path.join(seams.scratch_dir('c06'), 'len')
+        shutil.rmtree(d, ignore_errors=True)
+        os.makedirs(os.path.join(d, 'in'))
+        os.makedirs(os.path.join(d, 'out'))
+        fp = os.path.join(d, 'in', '50002000')
+        seams.write_file(fp, data)
+        for argv, mode in ((['-f', fp, '-E', '-P'], 'file'), (['-p', os.path.join(d, 'in'), '-a', '-E', '-P'], 'all'),
+                           (['-p', os.path.join(d, 'in'), '-i', '0x50002000', '-E', '-P'], 'file')):
+            res = seams.run_cli(argv)
+            try:
+                printed = json.loads(res['out'])
+                ok = printed == ([want] if mode == 'all' else want)
+            except ValueError:
+                ok = False
+            recs.append(dict(shape_ok=hit, src='stdout-%s-len' % mode, inl=[], outl=[], parses=ok, roundtrip=ok,
+                             text='%d chars: %s' % (len(text), (res['out'] or '')[:200])))
+        seams.run_cli(['-p', os.path.join(d, 'in'), '-j', '-o', os.path.join(d, 'out'), '-E', '-P'])
+        names = os.listdir(os.path.join(d, 'out'))
+        ok = False
+        if len(names) == 1:
+            with open(os.path.join(d, 'out', names[0]), encoding='utf-8', errors='replace') as f:
+                got = f.read()
+            try:
+                ok = json.loads(got) == want
+            except ValueError:
+                ok = False
+        recs.append(dict(shape_ok=hit and len(names) == 1, src='jsonfile-len', inl=[], outl=[], parses=ok, roundtrip=ok,
+                         text='%d chars, files %r' % (len(text), names)))
+        shutil.rmtree(d, ignore_errors=True)
+    return recs
+
+
 def run_case(case):
+    if case['kind'] == 'lengths':
+        return _lengths(case)
     return _docs(case) if case['kind'] == 'docs' else _pels(case)
 
 
